@@ -97,6 +97,11 @@ func (k msgServer) NonVotingUndelegate(ctx context.Context, msg *types.MsgNonVot
 		if err != nil {
 			return nil, errorsmod.Wrap(err, "invalid recipient address")
 		}
+		// the end blocker pays the recipient when the unbonding completes and returns the bank's
+		// error: an address that may not receive funds (module accounts) would stop every block
+		if k.bankKeeper.BlockedAddr(recipient) {
+			return nil, errorsmod.Wrapf(sdkerrors.ErrUnauthorized, "%s is not allowed to receive funds", msg.Recipient)
+		}
 	}
 
 	// Append Unstaking state
